@@ -1,6 +1,6 @@
 (* C20 — value level and line level: what the writer prints for one key/value pair is read back as that pair. *)
 From Coq Require Import ZArith List Bool Lia.
-From FV Require Import Models.Toml Proofs.TomlBasics.
+From FV Require Import Models.Toml Proofs.TomlBasics Proofs.TomlTrimG.
 Import ListNotations.
 Open Scope Z_scope.
 
@@ -243,8 +243,8 @@ Qed.
 
 Definition key_byte (c : Z) : Prop := 33 <= c <= 126 /\ c <> 61.
 Definition key_ok (k : bytes) : Prop := k <> [] /\ Forall key_byte k /\ hd 0 k <> 35 /\ hd 0 k <> 91.
-(* inline comments: ASCII without line feed *)
-Definition cmt_ok (c : bytes) : Prop := Forall (fun x => 0 <= x < 128 /\ x <> 10) c.
+(* inline comments: any bytes except line feed *)
+Definition cmt_ok (c : bytes) : Prop := ~ In 10 c.
 
 Definition kv_line (k : bytes) (v : value) (c : option bytes) : bytes :=
   k ++ s_sep ++ fmt_value v ++ match c with Some c => s_cmt ++ c | None => [] end.
@@ -275,17 +275,16 @@ Proof.
   set (t := fmt_value v) in *.
   (* the trimmed line *)
   assert (Hline : exists tail, trim_space (drop_cr (kv_line k v c)) = k ++ s_sep ++ t ++ tail /\
-            (tail = [] \/ exists t3, tail = 32 :: 35 :: t3 /\ Forall (fun x => 0 <= x < 128) t3)).
+            (tail = [] \/ exists t3, tail = 32 :: 35 :: t3)).
   { unfold kv_line. fold t. destruct c as [c|].
-    - assert (A : Forall (fun x => 0 <= x < 128) (32 :: c)).
-      { constructor; [lia|]. eapply Forall_impl; [| exact Hc]. simpl. intros; lia. }
-      replace (k ++ s_sep ++ t ++ s_cmt ++ c) with ((k ++ s_sep ++ t ++ [32]) ++ 35 :: 32 :: c)
+    - replace (k ++ s_sep ++ t ++ s_cmt ++ c) with ((k ++ s_sep ++ t ++ [32]) ++ 35 :: 32 :: c)
         by (unfold s_cmt; rewrite <- !app_assoc; reflexivity).
-      destruct (drop_cr_tail _ (k ++ s_sep ++ t ++ [32]) 35 (32 :: c) ltac:(lia) A) as (t1 & E1 & A1).
+      destruct (drop_cr_tail (fun _ => True) (k ++ s_sep ++ t ++ [32]) 35 (32 :: c) ltac:(lia)
+                  ltac:(apply Forall_forall; auto)) as (t1 & E1 & _).
       rewrite E1. unfold trim_space.
       rewrite (trim_left_head (k ++ s_sep ++ t ++ [32]) _ c0 (m0 ++ s_sep ++ t ++ [32]));
         [| rewrite Ek; reflexivity | exact Hp0].
-      destruct (trim_right_ascii_tail t1 (k ++ s_sep ++ t ++ [32]) 35 ltac:(unfold plain; lia) A1) as (t2 & E2 & A2).
+      destruct (trim_right_tail t1 (k ++ s_sep ++ t ++ [32]) 35 ltac:(unfold plain; lia)) as (t2 & E2).
       rewrite E2. exists (32 :: 35 :: t2). split; [rewrite <- !app_assoc; reflexivity|].
       right. exists t2. auto.
     - exists []. split; [| auto]. rewrite app_nil_r.
@@ -313,13 +312,13 @@ Proof.
     destruct Ea as [rest Ea].
     assert (Tt : tight t) by (exists a, mm, z; auto).
     unfold trim_space. rewrite trim_left_space by reflexivity.
-    destruct Htail as [-> | (t3 & -> & A3)].
+    destruct Htail as [-> | (t3 & ->)].
     - rewrite app_nil_r. fold (trim_space t). rewrite (trim_space_tight t Tt).
       unfold strip_inline_comment. rewrite <- (app_nil_r t) at 1. rewrite St. cbn [strip_go]. rewrite app_nil_r.
       apply trim_space_tight; auto.
     - rewrite (trim_left_head t _ a rest Ea Ha).
       replace (t ++ 32 :: 35 :: t3) with ((t ++ [32]) ++ 35 :: t3) by (rewrite <- app_assoc; reflexivity).
-      destruct (trim_right_ascii_tail t3 (t ++ [32]) 35 ltac:(unfold plain; lia) A3) as (t4 & E4 & _).
+      destruct (trim_right_tail t3 (t ++ [32]) 35 ltac:(unfold plain; lia)) as (t4 & E4).
       rewrite E4. unfold strip_inline_comment. rewrite <- app_assoc. rewrite St. cbn [app]. rewrite strip_hash.
       apply trim_space_pad; auto. }
   rewrite Hval, Pt. reflexivity.
@@ -336,7 +335,7 @@ Proof.
     apply in_app_or in X. destruct X as [X|X]; [auto|].
     destruct c as [c|]; [| destruct X].
     apply in_app_or in X. destruct X as [X|X]; [unfold s_cmt in X; simpl in X; intuition discriminate|].
-    unfold cmt_ok in Hc. rewrite Forall_forall in Hc. specialize (Hc 10 X). lia.
+    exact (Hc X).
 Qed.
 
 End Line.
